@@ -65,7 +65,10 @@ RULE = ("cells: random recipe trees (shared generator shapes) decorated with adv
         "the texts Jinja emitted compared with the model of markupsafe.escape; recipe pages must show their "
         "(backslash-laden) ingredient names verbatim; tok also holds whole pages of compile_markdown(doc).render(k) "
         "whose ingredient / step / output names and units contain backslashes, \\1, \\g<0>, $1, quotes (visible "
-        "text of every td against the compiled recipe). "
+        "text of every td against the compiled recipe); standalone pages (generate_standalone_page) for H1 "
+        "titles with & < > quotes, Markdown entities and serving counts written with ASCII and with non-ASCII decimal "
+        "digits (only ASCII digits are a count): decoded <title> / <h1> against the title as written, structure "
+        "against a plain title, raw <title> against the markupsafe model. "
         "Non-trivial = contains a character outside [A-Za-z0-9 ]; distinct = distinct input")
 
 ADV = ["a", "b", "Z", " ", " ", "<", ">", "&", '"', "'", "\\", "{", "}", "%", "#", "/", "-", "_", ".", "*", ";", "=",
@@ -470,7 +473,7 @@ SITE_TITLES = ["Tikka & Masala", "It's \"good\"", "x > y", "a < b", "R&D \"q\" '
                "\U0001F35D pasta", "&amp; entity", "&lt;b&gt;", "</title><script>x</script>".replace("<", "＜").replace(">", "＞"),
                "&amp;lt;i&amp;gt; literal", "AT&amp;amp;T", "&amp;#65; ref",      # entity-LIKE text: must be decoded exactly once
                "a  two  spaces", "tab\tin", "quote\" onmouseover=\"x", "apos' onmouseover='x", "Plain", "Zebra", "apple"]
-README_TITLES = ["{{ jinja }}", "{% block %} 100%", "{# comment #}", "&quot;quoted&quot; &#60;i&#62;"]   # source text
+README_TITLES = ["Thali serves \u096a", "\u9903\u5b50 for \uff12", "Mezze for \u0663", "{{ jinja }}", "{% block %} 100%", "{# comment #}", "&quot;quoted&quot; &#60;i&#62;"]   # source text
 SITE_DIRS = ["pasta", "Indian Mains", "sides&dips", "it's", 'say "hi"', "q?r", "a#b dir", "100%", "50%25 off",
              "日本料理", "Crème brûlée", "a+b", "semi;colon", "eq=als", "<b>bold<", "back\\slash",
              "{{x}}", "a&amp;b", "x>y", "'single'", "tab\tdir", "Kelvin", "emoji\U0001F35D", "&#60;"]
@@ -724,6 +727,91 @@ def md_case(doc: str, scale: Any = 1) -> Optional[Case]:
     return c
 
 
+# ---------------------------------------------------------------- standalone pages (generate_standalone_page)
+
+TITLE_BASES = ["Mac & cheese", "It's \"good\"", "x > y", "a < b", "R&D \"q\" 'single'", "Tikka &amp; Masala", "&lt;b&gt;bold",
+               "Crème brûlée", "日本のカレー", "back\\\\slash", "Plain", "Mezze", "Thali", "餃子", "&amp;amp; twice"]
+# (suffix as written, is it a serving count the documentation recognises?)  Only ASCII digits are a count.
+TITLE_SUFFIXES = [("", False), (" for 2", True), (" serves 3", True), (" for ٣", False), (" serves ४", False),
+                  (" for ２", False), (" to serve ६", False), (" makes ١٢", False)]
+
+
+def gen_standalone(rng: random.Random) -> Dict[str, Any]:
+    base = rng.choice(TITLE_BASES)
+    suffix, counted = rng.choice(TITLE_SUFFIXES)
+    ing = md_quote(rng.choice(MD_STRINGS) + " flour")
+    doc = f"# {base}{suffix}\n\nSome prose.\n\n    100g {ing}\n    2 eggs\n"
+    scale = rng.choice([None, None, 2, Fraction(1, 2)])
+    return {"doc": doc, "base": base, "suffix": suffix, "counted": counted,
+            "scale": coqio.num_json(scale) if scale is not None else None}
+
+
+def _standalone(doc: str, scale: Any) -> str:
+    import shutil
+    import tempfile
+    from pathlib import Path
+    from recipe_grid.static_site.standalone_page import generate_standalone_page
+    d = tempfile.mkdtemp(prefix="rgv_c10_")
+    try:
+        f = Path(d) / "recipe.md"
+        f.write_text(doc, encoding="utf-8")
+        return generate_standalone_page(f, scale=scale)
+    finally:
+        shutil.rmtree(d, ignore_errors=True)
+
+
+def _element_text(tokens, tag: str) -> Optional[str]:
+    out: Optional[List[str]] = None
+    depth = 0
+    for tk in tokens:
+        if tk[0] == "start" and tk[1] == tag and out is None:
+            out, depth = [], 1
+        elif out is not None and depth > 0:
+            if tk[0] == "start" and tk[1] == tag:
+                depth += 1
+            elif tk[0] == "end" and tk[1] == tag:
+                depth -= 1
+            elif tk[0] == "text":
+                out.append(tk[1])
+    return None if out is None else "".join(out)
+
+
+def standalone_case(inp: Dict[str, Any]) -> Case:
+    """The <title> and <h1> of the standalone page: decoded text = the title as written (Markdown-decoded), element
+    structure = the structure for a plain alphabetic title; the raw <title> text against the markupsafe model."""
+    st = inp["standalone"]
+    scale = coqio.num_unjson(st["scale"]) if st["scale"] is not None else None
+    written = _html.unescape(st["base"].replace("\\\\", "\\")) + st["suffix"]
+    want_title = _html.unescape(st["base"].replace("\\\\", "\\")) if st["counted"] else written
+    viol = None
+    raw_title = ""
+    try:
+        page = _standalone(st["doc"], scale)
+        twin_doc = st["doc"].replace("# " + st["base"] + st["suffix"], "# Plain" + (st["suffix"] if st["counted"] else " words"), 1)
+        twin_page = _standalone(twin_doc, scale)
+    except Exception as e:
+        page = twin_page = ""
+        viol = f"generate_standalone_page raised {type(e).__name__}: {e}"
+    if viol is None:
+        a, b = parse_html(page), parse_html(twin_page)
+        mt = re.search(r"<title>(.*?)</title>", page, re.S)
+        raw_title = mt.group(1) if mt else ""
+        tt, h1 = _element_text(a, "title"), _element_text(a, "h1")
+        if skeleton(a) != skeleton(b):
+            viol = "element structure of the standalone page differs from the structure for a plain alphabetic title"
+        elif tt != want_title:
+            viol = f"<title> reads {tt!r}, the recipe's title is {want_title!r}"
+        elif not st["counted"] and h1 != written:
+            viol = f"<h1> reads {h1!r}, the heading as written is {written!r}"
+        elif st["counted"] and (h1 is None or not h1.startswith(want_title)):
+            viol = f"<h1> reads {h1!r}, it should start with the title {want_title!r}"
+    return Case(input={"suite": "sitesinks", "standalone": st},
+                coq_in=coqio.lst([coqio.string(want_title)], "str"), coq_out=coqio.lst([coqio.string(raw_title)], "str"),
+                impl={"title": raw_title}, violation=viol, nontrivial=True,
+                tags=["sitesinks:standalone", "sitesinks:standalone-count" if st["counted"] else
+                      "sitesinks:standalone-nonascii-digits" if st["suffix"] else "sitesinks:standalone-plain"])
+
+
 def _suites_empty() -> Dict[str, Suite]:
     imp = ["From RG Require Import Gen.GenUnits Model.Recipe Model.Table Model.Units Model.Html Model.HtmlTok."]
     return {
@@ -777,6 +865,8 @@ def suites(tier: str, seed: int) -> List[Suite]:
         S["tfun"].cases.append(tfun_case(rng.choice(["td", "span", "a", "x-y"]), body, [(k, rand_text(rng, 0, 6)) for k in ks]))
     for _ in range(24 if tier == "quick" else 120):
         S["sitesinks"].cases.append(sitesinks_case({"site": gen_sink_site(rng)}))
+    for _ in range(70 if tier == "quick" else 700):
+        S["sitesinks"].cases.append(standalone_case({"standalone": gen_standalone(rng)}))
     for _ in range(60 if tier == "quick" else 600):
         mc = md_case(gen_md_doc(rng), rng.choice([1, 2, Fraction(1, 2)]))
         if mc is not None:
@@ -806,6 +896,8 @@ def replay(inp: Any) -> Case:
         return tok_case(inp["html"])
     if su in ("quoteattr", "escape", "markup"):
         return escape_case(su, inp["text"])
+    if su == "sitesinks" and "standalone" in inp:
+        return standalone_case({"standalone": inp["standalone"]})
     if su == "sitesinks":
         return sitesinks_case({"site": inp["site"]})
     if su == "tfun":
